@@ -94,7 +94,9 @@ type Service struct {
 	bellatrixForkEpoch phase0.Epoch
 	capellaForkEpoch   phase0.Epoch
 
-	// Tracking for reorgs.
+	// Tracking for reorgs.  Head events can arrive concurrently from
+	// different beacon nodes, so access is guarded by reorgMutex.
+	reorgMutex                sync.Mutex
 	lastBlockRoot             phase0.Root
 	lastBlockEpoch            phase0.Epoch
 	currentDutyDependentRoot  phase0.Root
